@@ -104,20 +104,27 @@ def st_rect_case(draw):
         lb, ub, _ = geom.box_cone_margin(W, l2 + t * v - u1, u2 + t * v - l1, svec)
         return (lb + ub) / 2
 
-    target = draw(st.sampled_from([1, -1])) * draw(st.sampled_from(LEVELS)) * scale
+    target = draw(st.sampled_from([1, -1])) * draw(st.sampled_from([0.1, 0.3, 1.0] if small else LEVELS)) * scale
     t = gr.solve_shift(f, target, -1e4 * scale, 1e4 * scale)
     off = draw(gr.st_offset(m, big=False))
     return {"cone": spec, "r1": gr.shift_region(r1, off), "r2": gr.shift_region({"lo": (l2 + t * v).tolist(), "hi": (u2 + t * v).tolist()}, off), "slack": s}
 
 
 @st.composite
-def st_ell_case(draw):
+def st_ell_case(draw, small=False):
     spec = draw(gen.st_cone(max_extra=3))
     W = gen.cone_W(spec) if spec["kind"] in ("W", "diag") else np.asarray(gen.make_order(spec).ordering_cone.W)
     K, m = W.shape
-    scale = draw(gen.st_logfloat(1e-4, 1e2))
-    e1 = draw(gr.st_ell(m, scale * draw(st.sampled_from([1.0, 1.0, 0.1]))))
-    e2 = draw(gr.st_ell(m, scale * draw(st.sampled_from([1.0, 1.0, 0.1]))))
+    if small:
+        # small extents described by a large radius times a tiny, strongly correlated covariance (entries <= 1e-8):
+        # absolute tolerances on covariance entries must not change the region
+        scale = draw(gen.st_logfloat(3e-4, 1e-3))
+        e1 = draw(gr.st_ell(m, scale, a_range=(10, 50), always_rotated=True))
+        e2 = draw(gr.st_ell(m, scale, a_range=(10, 50), always_rotated=True))
+    else:
+        scale = draw(gen.st_logfloat(1e-4, 1e2))
+        e1 = draw(gr.st_ell(m, scale * draw(st.sampled_from([1.0, 1.0, 0.1]))))
+        e2 = draw(gr.st_ell(m, scale * draw(st.sampled_from([1.0, 1.0, 0.1]))))
     s = draw(st_slack(K, scale))
     v = gr.interior_dir(W)
     nrm = np.linalg.norm(W, axis=1)
@@ -129,9 +136,9 @@ def st_ell_case(draw):
         lb, ub = geom.ell_cover_margin(Wn, np.array(e1["c"]), np.array(e1["S"]), e1["a"], c2 + t * v, np.array(e2["S"]), e2["a"], sl)
         return (lb + ub) / 2
 
-    target = draw(st.sampled_from([1, -1])) * draw(st.sampled_from(LEVELS)) * scale
+    target = draw(st.sampled_from([1, -1])) * draw(st.sampled_from([0.1, 0.3, 1.0] if small else LEVELS)) * scale
     t = gr.solve_shift(f, target, -1e3 * scale, 1e3 * scale)
-    off = draw(gr.st_offset(m, big=False))
+    off = [0.0] * m if small else draw(gr.st_offset(m, big=False))
     return {"cone": spec, "r1": gr.shift_region(e1, off), "r2": gr.shift_region(dict(e2, c=(c2 + t * v).tolist()), off), "slack": s}
 
 
@@ -140,4 +147,6 @@ COMPONENTS = [
               rule="hyper-rectangles 1e-4..1e2 incl. zero-width edges; all cone classes; scalar/vector objective-space slack"),
     Component("ell_margin_targeted", check_ell, strategy=st_ell_case, quick=500, thorough=12000,
               rule="ellipsoids extents 1e-4..1e2, condition <=1e3, radius 0.1..50; per-facet slack"),
+    Component("ell_small_correlated", check_ell, strategy=lambda: st_ell_case(small=True), quick=200, thorough=5000,
+              rule="extents 1e-5..1e-3 written as radius 10..50 x rotated covariance with entries <= 1e-8; margins 0.1..1 x extent"),
 ]
